@@ -119,6 +119,8 @@ type Machine struct {
 	rtypes             map[string]*Obj
 	poisonLog          map[string]string
 	cacheHits          int64
+	oneshot            *Solver
+	fmtOpaqueInts      bool
 	pushedFrame        bool
 	curDest            ssa.Value
 	intrinsicIsDefer   bool
@@ -336,6 +338,13 @@ func (m *Machine) load(p *Ptr) Value {
 	if p.obj == nil {
 		m.unsupported("load through unsafe string pointer")
 	}
+	if p.sym != nil {
+		arr, ok := m.loadRaw(&Ptr{obj: p.obj, path: p.path}).(*ArrayV)
+		if !ok {
+			m.unsupported("symbolic element pointer into non-array")
+		}
+		return m.symSelect(arr.E, p.sym)
+	}
 	v := p.obj.val
 	for _, i := range p.path {
 		switch c := v.(type) {
@@ -363,6 +372,21 @@ func (m *Machine) store(p *Ptr, val Value) {
 		m.unsupported("store through unsafe string pointer")
 	}
 	m.logUndo(p.obj)
+	if p.sym != nil {
+		arr, ok := m.loadRaw(&Ptr{obj: p.obj, path: p.path}).(*ArrayV)
+		nv, isT := val.(*Term)
+		if !ok || !isT {
+			m.unsupported("symbolic element store of %T", val)
+		}
+		for i := range arr.E {
+			old, ok := arr.E[i].(*Term)
+			if !ok {
+				m.unsupported("symbolic element store into non-scalar array")
+			}
+			arr.E[i] = Ite(Eq(p.sym, BVC(64, uint64(i))), nv, old)
+		}
+		return
+	}
 	val = copyValue(val)
 	if len(p.path) == 0 {
 		p.obj.val = val
@@ -396,6 +420,9 @@ func (m *Machine) store(p *Ptr, val Value) {
 }
 
 func ptrField(p *Ptr, i int) *Ptr {
+	if p.sym != nil {
+		panic(pathEnd{"inconclusive", "unsupported: field/index address through a symbolic element pointer"})
+	}
 	np := make([]int, len(p.path)+1)
 	copy(np, p.path)
 	np[len(p.path)] = i
